@@ -1,7 +1,195 @@
-import Cel.Model.Runtime
+/-
+  C05 — Evaluation is a function of expression and bindings, independent of history.
+
+  Property theorems only.  Subject: the API state machine `Cel.Runtime.step` over worlds with an explicit
+  heap of NameContainer objects (Cel.Model.Runtime), for the sharing policies that the translator reads
+  from the current source (`Cel.Gen.Runtime.config`, bridged in Cel.Bridge.Runtime): `Referent.clone`
+  clones its nested container, one lark parser per tree class, `exec` in a per-call namespace.
+  All statements quantify over EVERY finite history of operations (`List Op`, any length, any mix of
+  environments, runner classes, programs, bindings) — by induction over the history with the invariant
+  `Inv`; nothing is bounded.
+-/
+import Cel.Lemmas.Runtime
 import Cel.Bridge.Runtime
 namespace Cel.Props.C05
 open Cel Cel.Runtime
-/-- placeholder while the correspondence is brought up -/
-theorem placeholder : Config.fixed.clone = .deep := rfl
+
+/-- The invariant holds in the initial state (a fresh process). -/
+theorem inv_init : Inv World.init := Cel.Runtime.inv_init
+
+/-- Every API operation preserves the invariant: every compiled program's construction-time activation, as
+reachable in the heap, is still (up to object identity) the activation built from its declarations; every
+environment parses with a parser of its own runner's tree class. -/
+theorem inv_step (cfg : Config) (hc : cfg.clone = .deep) (hp : cfg.parser = .perClass) (w : World) (h : Inv w) (op : Op) :
+    Inv (step cfg w op).1 := Cel.Runtime.inv_step cfg hc hp w h op
+
+/-- … hence it holds after ANY history (induction over the operation sequence). -/
+theorem inv_run (cfg : Config) (hc : cfg.clone = .deep) (hp : cfg.parser = .perClass) :
+    ∀ (ops : List Op) (w : World), Inv w → Inv (run cfg w ops)
+  | [], _, h => h
+  | op :: ops, w, h => inv_run cfg hc hp ops _ (Cel.Runtime.inv_step cfg hc hp w h op)
+
+/-- No operation writes an object that existed before it, and programs are never removed or replaced
+(frame property; this is what fails for the shallow `Referent.clone`, see `d3_shallow_clone_leaks`). -/
+theorem step_frame (cfg : Config) (hc : cfg.clone = .deep) (hp : cfg.parser = .perClass) (w : World) (h : Inv w) (op : Op)
+    (i : Id) (nc : NC) (hg : w.heap.get i = some nc) : (step cfg w op).1.heap.get i = some nc := by
+  have := (inv_step_grows cfg hc hp w h op).2.1 i (h.bnd i nc hg)
+  rw [this, hg]
+
+theorem progs_mono_step (cfg : Config) (hc : cfg.clone = .deep) (hp : cfg.parser = .perClass) (w : World) (h : Inv w) (op : Op)
+    (i : Nat) (p : Prog) (hi : w.progs[i]? = some p) : (step cfg w op).1.progs[i]? = some p := by
+  obtain ⟨l, hl⟩ := (inv_step_grows cfg hc hp w h op).2.2.2
+  rw [hl, List.getElem?_append_left]
+  · exact hi
+  · cases hlt : decide (i < w.progs.length) with
+    | true => exact of_decide_eq_true hlt
+    | false =>
+      have : w.progs.length ≤ i := Nat.le_of_not_lt (of_decide_eq_false hlt)
+      rw [List.getElem?_eq_none this] at hi
+      cases hi
+
+theorem progs_mono_run (cfg : Config) (hc : cfg.clone = .deep) (hp : cfg.parser = .perClass) :
+    ∀ (ops : List Op) (w : World), Inv w → ∀ (i : Nat) (p : Prog), w.progs[i]? = some p → (run cfg w ops).progs[i]? = some p
+  | [], _, _, _, _, hi => hi
+  | op :: ops, w, h, i, p, hi =>
+    progs_mono_run cfg hc hp ops _ (Cel.Runtime.inv_step cfg hc hp w h op) i p (progs_mono_step cfg hc hp w h op i p hi)
+
+/-- the fresh-world evaluation observes the reference evaluation -/
+theorem ideal_eq (cfg : Config) (hc : cfg.clone = .deep) (hp : cfg.parser = .perClass) (p : Prog) (b : Bindings)
+    (hok : p.kind = .C → ∃ y, newActivation {} p.decls = .ok y) :
+    ideal cfg p b = evalFrom cfg p.kind {} p.decls p.pkg p.expr b := by
+  unfold ideal
+  have hI : Inv (run cfg World.init [.mkEnv p.kind p.decls p.pkg, .compile 0 (some p.expr), .program 0 0]) :=
+    inv_run cfg hc hp _ _ Cel.Runtime.inv_init
+  cases hk : p.kind with
+  | I =>
+    have hprog : (run cfg World.init [.mkEnv p.kind p.decls p.pkg, .compile 0 (some p.expr), .program 0 0]).progs[0]?
+        = some ⟨.I, p.decls, p.pkg, p.expr, (0, [])⟩ := by
+      simp [run, step, hp, hk, World.init]
+    rw [evaluate_obs cfg hc _ hI 0 _ hprog b]
+  | C =>
+    obtain ⟨⟨h0, root⟩, hy⟩ := hok hk
+    have hprog : (run cfg World.init [.mkEnv p.kind p.decls p.pkg, .compile 0 (some p.expr), .program 0 0]).progs[0]?
+        = some ⟨.C, p.decls, p.pkg, p.expr, root⟩ := by
+      simp [run, step, hp, hk, World.init, hy]
+    rw [evaluate_obs cfg hc _ hI 0 _ hprog b]
+
+/-- **History independence.**  After ANY history `ops` from a fresh process, evaluating ANY program `p` of the
+resulting state with ANY bindings `b` observes exactly what the same evaluation observes alone in a fresh
+world built from `p`'s runner class, declarations, package and expression (`ideal`).  Earlier evaluations
+of the same program with other bindings, other environments, runner classes and programs have no influence. -/
+theorem history_independent (cfg : Config) (hc : cfg.clone = .deep) (hp : cfg.parser = .perClass)
+    (ops : List Op) (i : Nat) (p : Prog) (hi : (run cfg World.init ops).progs[i]? = some p) (b : Bindings) :
+    (step cfg (run cfg World.init ops) (.evaluate i b)).2 = ideal cfg p b := by
+  have hI := inv_run cfg hc hp ops _ Cel.Runtime.inv_init
+  rw [evaluate_obs cfg hc _ hI i p hi b, ideal_eq cfg hc hp p b]
+  intro hk
+  obtain ⟨_, h0, hy, _⟩ := hI.progs p (List.mem_of_getElem? hi) hk
+  exact ⟨_, hy⟩
+
+/-- The same, for the policies of the CURRENT source (regenerated `Cel.Gen.Runtime.config`). -/
+theorem history_independent_current (ops : List Op) (i : Nat) (p : Prog)
+    (hi : (run Cel.Gen.Runtime.config World.init ops).progs[i]? = some p) (b : Bindings) :
+    (step Cel.Gen.Runtime.config (run Cel.Gen.Runtime.config World.init ops) (.evaluate i b)).2
+      = ideal Cel.Gen.Runtime.config p b :=
+  history_independent _ Cel.Bridge.Runtime.config_policies.1 Cel.Bridge.Runtime.config_policies.2.1 ops i p hi b
+
+/-- **Re-evaluation is stable.**  A program evaluated with bindings `b` at one point of a history and again with
+the same `b` after ANY further operations (`more`) observes the same. -/
+theorem reevaluation_stable (cfg : Config) (hc : cfg.clone = .deep) (hp : cfg.parser = .perClass)
+    (ops more : List Op) (i : Nat) (p : Prog) (hi : (run cfg World.init ops).progs[i]? = some p) (b : Bindings) :
+    (step cfg (run cfg (run cfg World.init ops) more) (.evaluate i b)).2
+      = (step cfg (run cfg World.init ops) (.evaluate i b)).2 := by
+  have hI := inv_run cfg hc hp ops _ Cel.Runtime.inv_init
+  have hi' := progs_mono_run cfg hc hp more _ hI i p hi
+  have hI' := inv_run cfg hc hp more _ hI
+  rw [evaluate_obs cfg hc _ hI' i p hi' b, evaluate_obs cfg hc _ hI i p hi b]
+
+/-- in particular, evaluating twice in a row gives the same observation -/
+theorem evaluate_twice (cfg : Config) (hc : cfg.clone = .deep) (hp : cfg.parser = .perClass)
+    (ops : List Op) (i : Nat) (p : Prog) (hi : (run cfg World.init ops).progs[i]? = some p) (b b' : Bindings) :
+    (step cfg (step cfg (run cfg World.init ops) (.evaluate i b')).1 (.evaluate i b)).2
+      = (step cfg (run cfg World.init ops) (.evaluate i b)).2 :=
+  reevaluation_stable cfg hc hp ops [.evaluate i b'] i p hi b
+
+/-- **Bindings unchanged** (the part that is a statement about the model): an `evaluate` writes no object that
+existed before the call — the per-call activation is built from fresh objects only; the values bound by the
+caller are stored by reference and never assigned to.  (The caller's `dict` itself is passed to the model by
+value, so "the dict is unchanged" cannot be stated here; it is checked on the implementation by the C05
+oracle for every evaluate of every generated history.)
+
+    full statement:  ∀ history, ∀ evaluate(p, b) in it, the mapping object `b` is equal, item by item and
+                     object by object, before and after the call. -/
+theorem bindings_unchanged_partial (cfg : Config) (hc : cfg.clone = .deep) (hp : cfg.parser = .perClass)
+    (ops : List Op) (i : Nat) (b : Bindings) (id : Id) (nc : NC)
+    (hg : (run cfg World.init ops).heap.get id = some nc) :
+    (step cfg (run cfg World.init ops) (.evaluate i b)).1.heap.get id = some nc :=
+  step_frame cfg hc hp _ (inv_run cfg hc hp ops _ Cel.Runtime.inv_init) _ id nc hg
+
+/-- Parser adequacy: after any history, a compiled environment builds programs from the trees it compiled
+itself without the tree-class failure (`AttributeError: 'Tree' object has no attribute 'checked_exception'`). -/
+theorem compiled_program_constructible (cfg : Config) (hc : cfg.clone = .deep) (hp : cfg.parser = .perClass)
+    (ops : List Op) (env : Nat) (x : Expr) :
+    let w := run cfg World.init ops
+    let w1 := (step cfg w (.compile env (some x))).1
+    (step cfg w1 (.program env w.asts.length)).2 ≠ .exc .attributeError := by
+  intro w w1
+  have hI := inv_run cfg hc hp ops _ Cel.Runtime.inv_init
+  show (step cfg w1 (.program env w.asts.length)).2 ≠ .exc .attributeError
+  cases he : w.envs[env]? with
+  | none =>
+    have : w1 = w := by show (step cfg w (.compile env (some x))).1 = w; simp [step, he]
+    rw [this]; simp [step, he]
+  | some e =>
+    have hpar : e.parser = e.kind := hI.envs e (List.mem_of_getElem? he)
+    have hw1 : w1 = { w with asts := w.asts ++ [⟨e.kind, x⟩] } := by
+      show (step cfg w (.compile env (some x))).1 = _
+      simp [step, he, hp, hpar]
+    rw [hw1]
+    simp only [step, he, List.getElem?_append_right (Nat.le_refl _), Nat.sub_self, List.getElem?_cons_zero]
+    cases hk : e.kind with
+    | I => simp
+    | C =>
+      simp only
+      cases newActivation w.heap e.decls with
+      | error x => simp [setupExc]; intro h; cases x <;> simp_all
+      | ok y => simp
+
+/-! ## non-vacuity and the two defects this property found (regressions) -/
+
+/-- D3 witness history: compiled program over `a.b + x`, evaluated with `a.b` bound, then without -/
+def d3History : List Op :=
+  [.mkEnv .C [("a.b", "IntType"), ("x", "IntType")] none,
+   .compile 0 (some (.add (.dot (.ident "a") "b") (.ident "x"))), .program 0 0,
+   .evaluate 0 [("a.b", .int 1), ("x", .int 10)], .evaluate 0 [("x", .int 10)]]
+
+/-- with the fixed `Referent.clone` the second evaluation is an error, as it is alone -/
+example : trace Config.fixed World.init d3History = [.done, .done, .done, .value "int:11", .err] := by decide
+/-- **D3**: with the shallow `Referent.clone` (before commit 6d594df) the binding of `a.b` leaks into the next
+evaluation — history independence fails, so the hypothesis `cfg.clone = .deep` is necessary -/
+theorem d3_shallow_clone_leaks :
+    trace ⟨.shallow, .perClass, .perCall, true⟩ World.init d3History = [.done, .done, .done, .value "int:11", .value "int:11"] ∧
+    ideal ⟨.shallow, .perClass, .perCall, true⟩ ⟨.C, [("a.b", "IntType"), ("x", "IntType")], none,
+        .add (.dot (.ident "a") "b") (.ident "x"), (0, [])⟩ [("x", .int 10)] = .err := by decide
+
+/-- D2 witness history: an interpreted environment first, then a compiled one -/
+def d2History : List Op :=
+  [.mkEnv .I [] none, .mkEnv .C [] none, .compile 1 (some (.lit 5)), .program 1 0, .evaluate 0 []]
+
+example : trace Config.fixed World.init d2History = [.done, .done, .done, .done, .value "int:5"] := by decide
+/-- **D2**: with the process-wide parser singleton (before commit e31ff08) the compiled program cannot be built -/
+theorem d2_parser_singleton_poisons :
+    trace ⟨.deep, .singleton, .perCall, true⟩ World.init d2History = [.done, .done, .done, .exc .attributeError, .noSuch] := by
+  decide
+
+/-- the hypotheses of `history_independent` are satisfiable with interesting content: a history with two
+environments of different runner classes, a dotted and packaged declaration, a program evaluated three times
+with overlapping bindings -/
+example :
+    let ops : List Op := [.mkEnv .I [("p.a", "IntType")] (some "p"), .mkEnv .C [("p.a", "IntType"), ("a.b", "IntType")] (some "p"),
+      .compile 1 (some (.add (.ident "a") (.dot (.ident "a") "b"))), .program 1 0,
+      .evaluate 0 [("p.a", .int 1), ("a.b", .int 2)], .evaluate 0 [("a.b", .int 2)], .evaluate 0 []]
+    (run Config.fixed World.init ops).progs[0]?.isSome = true ∧
+      trace Config.fixed World.init ops = [.done, .done, .done, .done, .err, .err, .err] := by decide
+
 end Cel.Props.C05
